@@ -112,7 +112,8 @@ type c16Result struct {
 // addresses of virtual connection k of scenario id (the remote port carries the scenario, several
 // scenarios share one server process)
 func c16Addr(id, k int) (net.Addr, net.Addr) {
-	return &net.TCPAddr{IP: net.IPv4(192, 0, 2, 1), Port: 7000}, &net.TCPAddr{IP: net.IPv4(203, 0, 113, byte(k)), Port: 20000 + (id%2000)*10 + k}
+	// unique per (scenario, connection): 4000 scenarios per address block, ten ports per scenario
+	return &net.TCPAddr{IP: net.IPv4(192, 0, 2, 1), Port: 7000}, &net.TCPAddr{IP: net.IPv4(203, byte(id/4000), 113, byte(k)), Port: 20000 + (id%4000)*10 + k}
 }
 
 func chunkBytes(k, n, size int, quit bool) []byte {
